@@ -631,7 +631,7 @@ package vanguard
 //@   track gets = (*sync.Pool).Get
 //@   track puts = (*sync.Pool).Put
 //@   track resets = (connectrpc.com/connect.Compressor).Reset
-//@   ensures[C15] p != nil ==> gets == 1 && puts == 1 && resets == 1
+//@   ensures[C15,C01,C02,C03] p != nil ==> gets == 1 && puts == 1 && resets == 1
 //@   ensures[C15] p == nil ==> gets == 0 && puts == 0
 //@   atcall[C15] (*sync.Pool).Put: resets == 1
 //@   modifies blen(dst), blen(src)
@@ -643,7 +643,7 @@ package vanguard
 //@   track gets = (*sync.Pool).Get
 //@   track puts = (*sync.Pool).Put
 //@   track resets = (connectrpc.com/connect.Decompressor).Reset
-//@   ensures[C15] p != nil ==> gets == 1 && puts == 1 && resets == 1
+//@   ensures[C15,C01,C02,C03] p != nil ==> gets == 1 && puts == 1 && resets == 1
 //@   ensures[C15] p == nil ==> gets == 0 && puts == 0
 //@   atcall[C15] (*sync.Pool).Put: resets == 1
 //@   ensures[C10] p != nil && err == nil ==> blen(dst) <= limit
@@ -673,7 +673,7 @@ package vanguard
 //@   preserves hlrInv(h)
 //@   step h.read >= old(h.read) && h.limit == old(h.limit) && h.r == old(h.r) && h.rw == old(h.rw) && (h.rw != nil ==> rwStep(h.rw))
 //@   ensures[C10,C08] 0 <= n && n <= len(data) && h.read == old(h.read) + n
-//@   ensures[C09,C10] h.read > h.limit ==> err != nil && !errIs(err, io.EOF)
+//@   ensures[C09,C10,C08] h.read > h.limit ==> err != nil && !errIs(err, io.EOF)
 //@   modifies h.read, $io.LimitedReader.N, #RWEND
 
 //@ pred readerOK(r) = r != nil && extern(r) && !typeIs(r, *bytes.Buffer) && (typeIs(r, *io.LimitedReader) ==> unbox(r, *io.LimitedReader) != nil)
@@ -1013,9 +1013,22 @@ package vanguard
 //@   ensures[C05] hdrSameExcept(headers, "Grpc-Timeout", "Content-Type", "Grpc-Encoding", "Grpc-Accept-Encoding")
 //@   modifies mapobj(headers), #LIB0
 
+// C05: names listed in a Trailer header are separated by commas with optional white space; every
+// name handed back is trimmed (a name with a leading blank never matches a header key).
 //@ func parseMultiHeader
 //@   loop 1 invariant count >= 0
+//@   loop 2 invariant[C05] forall i in [0, len(result)): ufs("strings.TrimSpace", result[i]) == result[i]
+//@   loop 3 invariant[C05] forall i in [0, len(result)): ufs("strings.TrimSpace", result[i]) == result[i]
+//@   ensures[C05] forall i in [0, len(r0)): ufs("strings.TrimSpace", r0[i]) == r0[i]
 //@   modifies
+
+// C04/C05: the set of declared trailer names is keyed by canonical header names, whatever spelling
+// the backend used in its Trailer header ("grpc-status" is the spelling of the gRPC specification).
+//@ func (headerKeys).add
+//@   requires k != nil
+//@   ensures[C04,C05] has(k, canon(key))
+//@   ensures[C05] forall s in string: s != canon(key) ==> has(k, s) == old(has(k, s))
+//@   modifies mapobj(k)
 
 // ------------------------------------------------------------------------------------------------
 // C04: Connect error details use unpadded standard base64 in both directions (Connect protocol,
